@@ -68,6 +68,10 @@ def planar : List String → Option String
       let r ← parseInt? r; let c ← parseInt? c; let i ← parseIdx? i
       let op ← (match op.toList with | [ch] => P1.ofChar? ch | _ => none)
       pure (if Planar.isSite i.1 i.2 then showBits (Planar.site r c op (Planar.identity r c) i) else "IndexError")
+  | ["opat", r, c, v, i] => do
+      let r ← parseInt? r; let c ← parseInt? c; let v ← parseBits? v; let i ← parseIdx? i
+      pure (if Planar.isSite i.1 i.2 && Planar.inBounds r c i.1 i.2
+            then String.singleton (Planar.operatorAt r c v i.1 i.2).toChar else "IndexError")
   | ["plaq", r, c, i] => do
       let r ← parseInt? r; let c ← parseInt? c; let i ← parseIdx? i
       pure (showExB (Planar.plaquette r c (Planar.identity r c) i.1 i.2))
